@@ -37,12 +37,16 @@ pub const RLN_IDENTIFIER: &[u8] = b"zerokit/rln/010203040506070809";
 const PROOF_AND_VALUES_SIZE: usize = 128 + 5 * 32;
 
 /// Reads the proof values which follow the 128 bytes of a serialized zk-proof.
-/// Inputs which are too short are rejected.
+/// Inputs which are too short, or in which a value is not the canonical encoding of a field element
+/// (i.e. an alias `v + k * p` of it), are rejected.
 fn read_proof_values(serialized: &[u8]) -> Result<RLNProofValues> {
     if serialized.len() < PROOF_AND_VALUES_SIZE {
         return Err(Report::msg("input is too short to contain a proof and its values"));
     }
     let (proof_values, _) = deserialize_proof_values(&serialized[128..]);
+    if serialize_proof_values(&proof_values)[..] != serialized[128..PROOF_AND_VALUES_SIZE] {
+        return Err(Report::msg("proof values are not canonically encoded"));
+    }
     Ok(proof_values)
 }
 
